@@ -1,3 +1,4 @@
+import NgoVerif.Proofs.C20dom
 import NgoVerif.Meta.Cover
 import NgoVerif.Meta.M4
 import NgoVerif.Model.Order
@@ -77,5 +78,19 @@ theorem C20_generated_rules_plain (st st' : Dep.DomState) (r : Dep.Req) (rs : Li
   Proofs.C20heads.runReq_plain st st' r rs h
 
 example : orderSpec [5, 1, 3, 3, -2] = (some (-2), some 5, [(-2, 1), (1, 3), (3, 5)]) := by decide
+
+/-! ## the central claim, for typed programs (`Proofs/C20dom.lean`) -/
+open Proofs.C20dom in
+/-- **a generated domain predicate contains the predicate it stands for, in every answer set**: if the program passes the
+executable `coveredCheck` for the map `m` (predicate ↦ domain predicate) - every plain rule and every choice element that
+can derive an atom of a mapped predicate has its domain rule, whose literals are literals of the source rule unchanged
+or domain versions of its positive literals - then `p(c̄) ∈ T ⟹ dom_p(c̄) ∈ T` for every stable model `T`.  Standard head
+semantics, any parameters with persistent aggregates whose double negation is evaluated in the total interpretation.
+Domain rules that replace a NEGATED literal or a condition by its domain version (finding D6) fail the check. -/
+theorem C20_domain_overapproximates (P : Sem.Params) (hp : Sem.AggPersistent P) (hdn : DnegT P)
+    (m : List ((String × Nat) × String)) (prg : Prog) (hc : coveredCheck m prg = true) (T : Sem.Interp)
+    (hT : Sem.Stable (Sem.stdParams P) prg T) :
+    ∀ a d, T a → mapOf m a.name a.args.length = some d → T ⟨d, a.args⟩ :=
+  dom_overapprox_of_check P hp hdn m prg hc T hT
 
 end NgoVerif
